@@ -187,7 +187,10 @@ package flow
 //@   requires c != nil && wuInv(c) && 0 <= c.storedTokens && c.storedTokens <= c.maxToken && passQps >= 0.0
 //@   requires c.lastFilledTime <= currentTime && currentTime < 4611686018427387904
 //@   ensures[capped] r <= c.maxToken
-//@   ensures[saturating-demand-does-not-refill-a-cold-bucket] forall q Int :: c.storedTokens > c.warningToken && q >= 0 && R(q) * R(c.coldFactor) <= c.threshold && c.threshold < R(q + 1) * R(c.coldFactor) && passQps >= R(q) ==> r == c.storedTokens
+// (the whole-request cold rate is written floor(floor(threshold)/coldFactor), which equals floor(threshold/coldFactor)
+// for every integer coldFactor >= 1 — the nested-floor identity; stated this way the obligation stays linear for
+// the solver, while a bound computed in floats, threshold/coldFactor, still violates it for inexact quotients)
+//@   ensures[saturating-demand-does-not-refill-a-cold-bucket] c.storedTokens > c.warningToken && passQps >= R(trunc(c.threshold) / c.coldFactor) ==> r == c.storedTokens
 //@   ensures[at-the-warning-line-unchanged] c.storedTokens == c.warningToken ==> r == c.storedTokens
 //@   ensures[never-drains-here] r >= c.storedTokens
 //@   modifies nothing
